@@ -361,6 +361,9 @@ class Interp:
     def call_func(self, f, args, kwargs=None, force_body=False):
         kwargs = kwargs or {}
         q = f.qualname
+        for d in f.node.decorator_list:
+            if ast.unparse(d) not in ("property", "staticmethod", "classmethod"):
+                raise Unsupported("decorated function %s (@%s): decorators are outside the verified subset" % (q, ast.unparse(d)))
         if not force_body and q in self.summaries and q not in self.inline:
             self.used_summaries.add(q)
             return self.summaries[q](self, *args, **kwargs)
@@ -1203,7 +1206,14 @@ class SetVal:
     def iterate(self):
         if len(self.items) <= 1:
             return list(self.items)
-        raise Unsupported("iteration over a set with several members (order is hash-dependent)")
+        # the iteration order of a set of str/bytes depends on PYTHONHASHSEED: every order is possible
+        import itertools
+        if len(self.items) > 4:
+            raise Unsupported("iteration over a set with more than 4 members (order is hash-dependent)")
+        perms = list(itertools.permutations(self.items))
+        k = core.CUR.choose(len(perms))
+        core.CUR.declare("set_iteration_order", "choice", k)
+        return list(perms[k])
 
     def union(self, o):
         s = SetVal(self.items)
